@@ -272,7 +272,26 @@ impl CaseKind for FwdCase {
                         let exact = self.force_exact.unwrap_or(false) || (m.nodes.iter().all(|n| n.exact) && self.op.is_exact() && t.vals.iter().all(|x| is_exact_value(x.v)));
                         let mags: Vec<f64> = if self.force_exact == Some(true) { vec![0.0; t.numel()] } else { t.mags() };
                         match diff_array_forward(&a, &t.dims, &t.values(), &mags, exact) {
-                            None => Outcome::pass(nontrivial, key, classes),
+                            None => {
+                                // add, subtract, multiply and divide are ONE correctly rounded scalar operation per
+                                // element ("the scalar operation applied to the operands' elements"): in the double
+                                // precision build, where library and reference hold the same operand values, every
+                                // finite element must be that value to the last bit (a quotient computed as
+                                // a * (1/b) is one unit off for most divisors and passes any tolerance)
+                                if !IS_F32 && matches!(self.op, OpKind::Add | OpKind::Sub | OpKind::Mul | OpKind::Div) {
+                                    let (gv, wv) = (a.values(), t.values());
+                                    if let Some(i) = (0..wv.len()).find(|&i| wv[i].is_finite() && (gv[i] as f64) != wv[i]) {
+                                        return Outcome::fail(
+                                            "value-mismatch",
+                                            self.sig("value-mismatch"),
+                                            format!("{:?} on operand dims {:?}: element {} is {:e}, not the correctly rounded scalar result {:e} (one operation per element: bitwise)", self.op, dims, i, gv[i], wv[i]),
+                                            key,
+                                            classes,
+                                        );
+                                    }
+                                }
+                                Outcome::pass(nontrivial, key, classes)
+                            }
                             Some(d) if d == UNDECIDABLE => Outcome::discard(UNDECIDABLE),
                             Some(d) => {
                                 let kind = if a.dimensions() != &t.dims[..] { "wrong-dimensions" } else { "value-mismatch" };
@@ -325,6 +344,115 @@ impl SeqCase {
             }
         }
         Outcome { verdict: last.verdict, nontrivial: self.calls.len() >= 2, key: key.finish(), classes: { let mut c = last.classes; c.push("kind:call-sequence".into()); c } }
+    }
+}
+
+/// One operand of a call of a `ReuseSeqCase`: leaf `leaf`, optionally through a fresh clone and / or a reshaped
+/// view (both share the leaf's storage and whatever the library hangs on the object).
+#[derive(Clone, Debug, Serialize, Deserialize)]
+pub struct ReuseArg {
+    pub leaf: usize,
+    #[serde(default)]
+    pub view: Option<Vec<usize>>,
+    #[serde(default)]
+    pub via_clone: bool,
+}
+#[derive(Clone, Debug, Serialize, Deserialize)]
+pub struct ReuseCall {
+    pub op: OpKind,
+    pub args: Vec<ReuseArg>,
+}
+/// Several forward calls in one thread that REUSE THE SAME ARRAYS (directly, through clones, through reshaped
+/// views): every result is judged on its own against the reference. A result must not depend on what the same
+/// object, buffer or thread was used for before (memo tables hung on an array or keyed on its buffer).
+#[derive(Clone, Debug, Serialize, Deserialize)]
+pub struct ReuseSeqCase {
+    pub leaves: Vec<LeafSpec>,
+    pub calls: Vec<ReuseCall>,
+}
+
+impl CaseKind for ReuseSeqCase {
+    const KIND: &'static str = "forward-op-reuse-sequence";
+    fn size(&self) -> usize {
+        self.leaves.iter().map(|l| l.vals.len() + l.dims.len()).sum::<usize>() + self.calls.len()
+    }
+    fn sample(&self) -> Value {
+        json!({"leaf_dims": self.leaves.iter().map(|l| l.dims.clone()).collect::<Vec<_>>(), "calls": self.calls.iter().map(|c| format!("{:?} {:?}", c.op, c.args.iter().map(|a| (a.leaf, a.view.clone(), a.via_clone)).collect::<Vec<_>>())).collect::<Vec<_>>()})
+    }
+    fn run(&self) -> Outcome {
+        crate::exec::with_shared_acts(|| self.run_shared())
+    }
+}
+
+impl ReuseSeqCase {
+    fn run_shared(&self) -> Outcome {
+        let mut m = RefState::forward_only();
+        let mut ex = Exec::new();
+        let mut key = KeyHasher::new("reuse-seq");
+        for l in &self.leaves {
+            m.new_leaf(&l.dims, &l.vals, l.tracked);
+            if let Err(e) = ex.step(&Step::Leaf { dims: l.dims.clone(), vals: l.vals.clone(), tracked: l.tracked }) {
+                return Outcome::internal(format!("leaf construction panicked: {}", e));
+            }
+            key.u(key_of("leaf", &OpKind::Neg, std::slice::from_ref(l), 0));
+        }
+        let mut next = self.leaves.len();
+        let mut classes = vec!["kind:reuse-sequence".to_string()];
+        let mut judged = 0usize;
+        for (ci, c) in self.calls.iter().enumerate() {
+            let mut args = vec![];
+            for a in &c.args {
+                let mut slot = a.leaf;
+                let mut steps = vec![];
+                if a.via_clone {
+                    steps.push(Step::Clone { h: slot });
+                }
+                for st in steps {
+                    if m.step(&st).is_err() || ex.step(&st).is_err() {
+                        return Outcome::discard("a clone could not be built");
+                    }
+                    slot = next;
+                    next += 1;
+                }
+                if let Some(vd) = &a.view {
+                    let st = Step::Apply(ApplySpec { op: OpKind::Reshape(vd.clone()), args: vec![slot] });
+                    let (rm, re) = (m.step(&st), ex.step(&st));
+                    if rm.is_err() || re.is_err() {
+                        return Outcome::discard("a view could not be built");
+                    }
+                    slot = next;
+                    next += 1;
+                }
+                args.push(slot);
+            }
+            let dims: Vec<Vec<usize>> = args.iter().map(|&h| m.node_of(h).t.dims.clone()).collect();
+            classes.push(format!("op:{}", op_param_class(&c.op)));
+            key.u(ci as u64).s(&format!("{:?} {:?}", c.op, c.args.iter().map(|a| (a.leaf, a.view.clone(), a.via_clone)).collect::<Vec<_>>()));
+            let expected = m.eval(&c.op, &args);
+            let got = guarded(|| ex.eval(&c.op, &args));
+            let sig = |kind: &str| format!("{}:{}:call{}-on-reused-arrays", kind, op_param_class(&c.op), ci.min(1) + 1);
+            let fail = |kind: &str, detail: String, key: u64, classes: Vec<String>| Outcome::fail(kind, sig(kind), format!("call {} of {} on arrays used before ({:?} on operand dims {:?}; leaves {:?}): {}", ci + 1, self.calls.len(), c.op, dims, self.leaves.iter().map(|l| l.dims.clone()).collect::<Vec<_>>(), detail), key, classes);
+            match expected {
+                Err(RefErr::OutOfDomain(w)) => return Outcome::discard(&w),
+                Err(RefErr::Refuse(why)) => {
+                    if let Ok(a) = got {
+                        return fail("not-refused", format!("must be refused ({}) but returned dims {:?}", why, a.dimensions()), key.finish(), classes);
+                    }
+                }
+                Ok(t) => match got {
+                    Err(p) => return fail("unexpected-panic", format!("admissible (expected dims {:?}) but panicked: {}", t.dims, p), key.finish(), classes),
+                    Ok(a) => match diff_array_forward(&a, &t.dims, &t.values(), &t.mags(), false) {
+                        None => judged += 1,
+                        Some(d) if d == UNDECIDABLE => return Outcome::discard(UNDECIDABLE),
+                        Some(d) => {
+                            let kind = if a.dimensions() != &t.dims[..] { "wrong-dimensions" } else { "value-mismatch" };
+                            return fail(kind, d, key.finish(), classes);
+                        }
+                    },
+                },
+            }
+        }
+        Outcome::pass(judged >= 2, key.finish(), classes)
     }
 }
 
